@@ -626,3 +626,27 @@ V('c02-none-result', 'C02', 'C02.R2a',
 V('c02-none-result-op', 'C02', 'C02.R2a',
   (OPSF, "            if result is None:\n                instances = []\n            else:\n                instances = result[0][2]\n\n            for instance in instances:\n\n                if not isinstance(instance, CIMInstance):", "            instances = result[0][2]\n\n            for instance in instances:\n\n                if not isinstance(instance, CIMInstance):"),
   'none-result')
+
+# ---- C02.R2 (reply element shapes) -----------------------------------------
+OPSF = 'pywbem/_cim_operations.py'
+V('c02-shape-no-tuple-check', 'C02', 'C02.R2',
+  (OPSF, "                if not isinstance(x, tuple):\n                    raise CIMXMLParseError(\n                        _format(\"Expecting a VALUE.OBJECT*, or OBJECTPATH \"\n                                \"element in result list, got {0} object\",\n                                x.__class__.__name__),\n                        conn_id=self.conn_id)\n                objects.append(x[2])",
+         "                objects.append(x[2])"), 'subscript')
+V('c02-shape-pull-no-type', 'C02', 'C02.R2',
+  (OPSF, "            result_tuple = pull_path_result_tuple(\n                *self._get_rslt_params(result, namespace, CIMInstanceName))\n            return result_tuple\n\n        except (CIMXMLParseError, XMLParseError) as exce:\n            exce.request_data = self.last_raw_request\n            exce.response_data = self.last_raw_reply\n            exc = exce\n            raise\n        except Exception as exce:\n            exc = exce\n            raise\n        finally:\n            self._last_operation_time = stats.stop_timer(\n                self.last_request_len, self.last_reply_len,\n                self.last_server_response_time, exc)\n            if self._operation_recorders:\n                self.operation_recorder_stage_result(result_tuple, exc)\n\n    def PullInstances(",
+         "            result_tuple = pull_path_result_tuple(\n                *self._get_rslt_params(result, namespace))\n            return result_tuple\n\n        except (CIMXMLParseError, XMLParseError) as exce:\n            exce.request_data = self.last_raw_request\n            exce.response_data = self.last_raw_reply\n            exc = exce\n            raise\n        except Exception as exce:\n            exc = exce\n            raise\n        finally:\n            self._last_operation_time = stats.stop_timer(\n                self.last_request_len, self.last_reply_len,\n                self.last_server_response_time, exc)\n            if self._operation_recorders:\n                self.operation_recorder_stage_result(result_tuple, exc)\n\n    def PullInstances("),
+  'unchecked-return')
+V('c02-shape-path-none', 'C02', 'C02.R2',
+  (OPSF, "                if instance.path is None:\n                    raise CIMXMLParseError(\n                        \"Expecting CIMInstance object with path in result \"\n                        \"list (VALUE.NAMEDINSTANCE element), got CIMInstance \"\n                        \"object without path\",\n                        conn_id=self.conn_id)\n                instance.path.namespace = namespace",
+         "                instance.path.namespace = namespace"), 'attribute .namespace')
+V('c02-shape-getinstance-no-check', 'C02', 'C02.R2',
+  (OPSF, "            if not isinstance(instance, CIMInstance):\n                raise CIMXMLParseError(\n                    _format(\"Expecting CIMInstance object in result, got {0} \"\n                            \"object\", instance.__class__.__name__),\n                    conn_id=self.conn_id)\n\n            # The GetInstance CIM-XML",
+         "            # The GetInstance CIM-XML"), 'attribute .path')
+V('c02-shape-wrong-type-param', 'C02', 'C02.R2',
+  (OPSF, "            for obj in rtn_objects:\n                if not isinstance(obj, exp_type):",
+         "            for obj in rtn_objects:\n                if obj is None:"), 'unchecked-return')
+V('c02-shape-classlevel-unpack', 'C02', 'C02.R2',
+  (OPSF, "                if not isinstance(obj, tuple):\n                    raise CIMXMLParseError(\n                        _format(\"Expecting tuple (CIMClassName, CIMClass) \"\n                                \"in result list, got {0} object\",\n                                obj.__class__.__name__),\n                        conn_id=self.conn_id)\n                classpath, klass = obj",
+         "                classpath, klass = obj"), 'unpacking')
+V('c02-shape-enumqual-no-check', 'C02', 'C02.R2',
+  (OPSF, "                if not isinstance(qualifierdecl, CIMQualifierDeclaration):", "                if qualifierdecl is None:"), 'unchecked-return')
